@@ -251,6 +251,24 @@ def nonconvex_fg(name, n):
         am = np.array([1.54 - 0.2 * (i % 3) for i in range(n)])
         return (lambda x: float(np.sum(am * np.cos(om * x + ph)) + 1.1e-3 * np.sum(x ** 4)),
                 lambda x: -am * om * np.sin(om * x + ph) + 4.4e-3 * x ** 3)
+    if name == "barrier":
+        # a convex quadratic whose implementation returns +inf beyond a hyperplane that
+        # cuts the box (log-barrier style guard); the minimiser is on the allowed side
+        cb = np.array([0.9 - 0.2 * (i % 3) for i in range(n)])
+
+        def fb(x):
+            if np.sum(np.real(x)) > 0.8 * n:
+                return np.inf
+            return 0.5 * np.sum((1.0 + 0.5 * np.arange(n)) * (x - cb) ** 2)
+        return (fb, lambda x: (1.0 + 0.5 * np.arange(n)) * (x - cb))
+    if name == "sinsum":
+        # sum of sines plus a weak quadratic: wells separated by concave regions a few
+        # units wide; in a box of comparable size steps are cut by the bounds while the
+        # curvature along them is negative (rejected pairs next to kept ones)
+        am = np.array([1.9 - 0.3 * (i % 3) + 0.1 * (i // 3) for i in range(n)])
+        ph = np.array([0.8, -0.8, 1.0, 0.3, -1.4, 2.1, -0.2, 1.6, -2.3, 0.5, 2.8, -1.9][:n])
+        return (lambda x: float(np.sum(am * np.sin(x + ph)) + 0.05 * np.sum(x ** 2)),
+                lambda x: am * np.cos(x + ph) + 0.1 * x)
     if name == "coswell2":
         # instance and start taken from an independently written demonstration
         # (seeded/C18-4): a rejected pair immediately followed by a failed line search
